@@ -533,10 +533,21 @@ def same_val(a, b, what):
         check(eq(a, b), what + ': value')
 
 
+def nested_ternary(e, inside=False):
+    """Syntax.md, "Ternary operator": nested ternary operators are forbidden"""
+    if not isinstance(e, tuple): return False
+    if e and e[0] == 'tern':
+        if inside: return True
+        return any(nested_ternary(x, True) for x in e[1:])
+    return any(nested_ternary(x, inside) for x in e[1:] if isinstance(x, (tuple, list))) or \
+        any(nested_ternary(y, inside) for x in e[1:] if isinstance(x, list) for y in x)
+
+
 def differential(stmts, presets, text=None):
     text = text if text is not None else render_block(stmts)
     ref = Ref({k: clone(v) for k, v in presets.items()})
     try:
+        if any(nested_ternary(s_) for s_ in stmts): raise RefError('nested ternary')
         ref.run(stmts); rerr = None
     except RefError as e:
         rerr = str(e)
@@ -618,6 +629,70 @@ def ob_cmp_arith():
         tree = [('bin', c1, ('bin', a1, a, b), c), ('bin', c1, a, ('bin', a1, b, c)), ('bin', '==', ('bin', c1, a, b), ('var', 'B0')),
                 ('tern', ('bin', c1, a, b), ('bin', a1, a, c), ('bin', a1, b, c))][shape]
         differential([('assign', 'x', tree)], P)
+    return h
+
+
+def gen_int(depth, nl, tag):
+    """integer-valued expression tree of the given depth over variables I0..I(nl-1)"""
+    if depth == 0:
+        return ('var', 'I%d' % choose(nl, tag + 'v')) if nl > 1 else ('var', 'I0')
+    k = choose(8, tag + 'k')
+    if k < 5: return ('bin', ARITH[k], gen_int(depth - 1, nl, tag + 'l'), gen_int(depth - 1, nl, tag + 'r'))
+    if k == 5: return ('neg', gen_int(depth - 1, nl, tag + 'n'))
+    if k == 6: return ('tern', gen_bool(depth - 1, nl, tag + 'c'), gen_int(depth - 1, nl, tag + 't'), gen_int(depth - 1, nl, tag + 'f'))
+    return gen_int(0, nl, tag + 'z')
+
+
+def gen_bool(depth, nl, tag):
+    if depth == 0:
+        return ('var', 'B%d' % choose(nl, tag + 'v')) if nl > 1 else ('var', 'B0')
+    k = choose(6, tag + 'k')
+    if k == 0: return ('bin', 'and', gen_bool(depth - 1, nl, tag + 'l'), gen_bool(depth - 1, nl, tag + 'r'))
+    if k == 1: return ('bin', 'or', gen_bool(depth - 1, nl, tag + 'l'), gen_bool(depth - 1, nl, tag + 'r'))
+    if k == 2: return ('not', gen_bool(depth - 1, nl, tag + 'n'))
+    if k == 3: return ('bin', CMP[choose(6, tag + 'c')], gen_int(depth - 1, nl, tag + 'l'), gen_int(depth - 1, nl, tag + 'r'))
+    if k == 4: return ('bin', ['==', '!='][choose(2, tag + 'e')], gen_bool(depth - 1, nl, tag + 'l'), gen_bool(depth - 1, nl, tag + 'r'))
+    return gen_bool(0, nl, tag + 'z')
+
+
+def has_mul(e):
+    if e[0] == 'bin': return e[1] in '*/%' or has_mul(e[2]) or has_mul(e[3])
+    if e[0] in ('not', 'neg'): return has_mul(e[1])
+    if e[0] == 'tern': return has_mul(e[1]) or has_mul(e[2]) or has_mul(e[3])
+    return False
+
+
+def ob_expr(depth, nl, kind):
+    """every expression tree of the given depth over the arithmetic / logic / comparison / ternary fragment"""
+    def h():
+        tree = gen_int(depth, nl, 'e') if kind == 'int' else gen_bool(depth, nl, 'e')
+        small = has_mul(tree)
+        P = {}
+        for i in range(nl):
+            P['I%d' % i] = sym_int('I%d' % i, -3, 3) if small else sym_int('I%d' % i)
+            P['B%d' % i] = sym_bool('B%d' % i)
+        differential([('assign', 'x', tree)], P)
+    return h
+
+
+def ob_containers():
+    """aliasing through containers and loop variables; nested data; += on every type"""
+    def h():
+        P = {'I0': sym_int('I0'), 'I1': sym_int('I1'), 'S0': sym_str(1, 'S0', alphabet='ab')}
+        k = choose(9, 'prog')
+        i0, i1, s0 = ('var', 'I0'), ('var', 'I1'), ('var', 'S0')
+        progs = [
+            [('assign', 'a', ('arr', [i0])), ('assign', 'd', ('dict', [(('str', 'k'), ('var', 'a'))])), ('pluseq', 'a', i1), ('assign', 'n', ('meth', ('idx', ('var', 'd'), ('str', 'k')), 'length', [], {}))],
+            [('assign', 'a', ('arr', [('arr', [i0]), ('arr', [i1])])), ('foreach', ['e'], ('var', 'a'), [('pluseq', 'e', s0)]), ('assign', 'n', ('meth', ('idx', ('var', 'a'), ('num', 0)), 'length', [], {}))],
+            [('assign', 'a', ('arr', [i0])), ('assign', 'b', ('arr', [('var', 'a'), ('var', 'a')])), ('pluseq', 'a', i1), ('assign', 'x', ('bin', '==', ('idx', ('var', 'b'), ('num', 0)), ('arr', [i0])))],
+            [('assign', 'x', i0), ('pluseq', 'x', i1), ('assign', 's', s0), ('pluseq', 's', s0), ('assign', 'd', ('dict', [(('str', 'a'), i0)])), ('pluseq', 'd', ('dict', [(('str', 'b'), i1)]))],
+            [('assign', 'x', i0), ('pluseq', 'x', s0)],
+            [('assign', 'a', ('bin', '+', ('arr', [i0]), ('arr', [('arr', [i1])]))), ('assign', 'n', ('meth', ('var', 'a'), 'length', [], {})), ('assign', 'y', ('idx', ('idx', ('var', 'a'), ('num', 1)), ('num', 0)))],
+            [('assign', 'd', ('dict', [(('str', 'k'), ('arr', [i0]))])), ('assign', 'v', ('idx', ('var', 'd'), ('str', 'k'))), ('pluseq', 'v', i1), ('assign', 'n', ('meth', ('idx', ('var', 'd'), ('str', 'k')), 'length', [], {}))],
+            [('assign', 'a', ('arr', [i0, i1])), ('assign', 'x', ('meth', ('var', 'a'), 'get', [('num', 5), ('var', 'a')], {})), ('pluseq', 'x', s0), ('assign', 'n', ('meth', ('var', 'a'), 'length', [], {}))],
+            [('pluseq', 'undefined_name', i0)],
+        ]
+        differential(progs[k], P)
     return h
 
 
@@ -849,6 +924,14 @@ def obligations(tier):
            Obligation('comparison-vs-arithmetic', ob_cmp_arith(), dict(form='comparison with arithmetic operands, comparison of a comparison, ternary'), labels=('value',), max_paths=5000000)]
     for op in ALLBIN:
         out.append(Obligation('types[%s]' % op, ob_types(op), dict(operator=op, operand_types='all 5x5 pairs of int, bool, str, array, dict'), labels=('error', 'value'), max_paths=5000000, classify=classify_types))
+    out.append(Obligation('expr[int,depth 2]', ob_expr(2, 1 if tier == 'quick' else 2, 'int'), dict(depth=2, fragment='+ - * / % unary- ternary over comparisons / and / or / not', leaves=1 if tier == 'quick' else 2),
+                          labels=('value', 'error'), max_paths=20000000))
+    out.append(Obligation('expr[bool,depth 2]', ob_expr(2, 1 if tier == 'quick' else 2, 'bool'), dict(depth=2, fragment='and or not == != < <= > >= over arithmetic', leaves=1 if tier == 'quick' else 2),
+                          labels=('value', 'error'), max_paths=20000000))
+    if tier != 'quick':
+        out.append(Obligation('expr[int,depth 3]', ob_expr(3, 1, 'int'), dict(depth=3, leaves=1), labels=('value', 'error'), max_paths=50000000, path_timeout=300))
+        out.append(Obligation('expr[bool,depth 3]', ob_expr(3, 1, 'bool'), dict(depth=3, leaves=1), labels=('value', 'error'), max_paths=50000000, path_timeout=300))
+    out.append(Obligation('containers', ob_containers(), dict(programs=9), labels=('value', 'error'), max_paths=5000000))
     out.append(Obligation('unary-types', ob_unary_types(), dict(forms='not, unary minus, if, ternary condition on all 5 types'), labels=('value', 'error')))
     out.append(Obligation('arrays', ob_arrays(), dict(programs=9), labels=('value', 'error'), max_paths=5000000))
     out.append(Obligation('dicts', ob_dicts(), dict(programs=8), labels=('value', 'error'), max_paths=5000000))
